@@ -183,8 +183,7 @@ def gen_op(rng, n):
     if k in ('peek', 'unbatch'):
         return [k]
     if k == 'buffer':
-        # sizes 1-2 can hang on early stop on the pinned tree (known finding C05-C); not this property's subject
-        return [k, rng.choice([3, 3, 4, 5, n + 3])]
+        return [k, rng.choice([1, 2, 3, 4, n + 3])]
     if k in ('head', 'tail', 'batch'):
         return [k, rng.choice(bnd)]
     if k == 'groupby':
@@ -219,7 +218,7 @@ def gen_lookahead_case(rng):
     for _ in range(rng.choice([1, 2, 3])):
         k = rng.choice(['map', 'peek', 'accum', 'buffer', 'parmap'])
         ops.append({'map': ['map', rng.choice([0, 1, 6])], 'peek': ['peek'], 'accum': ['accum', 1, None],
-                    'buffer': ['buffer', rng.choice([3, 4, 5])],
+                    'buffer': ['buffer', rng.choice([1, 2, 3, 5])],
                     'parmap': ['parmap', rng.choice([0, 1]), False, False, rng.choice([1, 2, 3])]}[k])
     return {'ops': ops, 'xs': [['I', i % 10] for i in range(n)], 'upe': -1, 'mode': 'take', 'k': rng.choice([1, 2, 5])}
 
